@@ -33,6 +33,8 @@ func runC04(c *Ctx) {
 	c11Allocator(c, "C04.9")
 	ruleStampHasRecord(c, "C04.10")
 	ruleListIterationStable(c, "C04.11")
+	ruleReplaySkipsOnlyOnPageLSN(c, "C04.12")
+	ruleRecoveryVisitsAll(c, "C04.13")
 	// the log append of a statement is in the same bracket as its page changes (otherwise the timer
 	// flush can write an unlogged change and its LSN to the data file)
 	sub := NewCtx("C04", c.W)
